@@ -27,6 +27,69 @@ def _ranges(nums):
     return out
 
 
+def _child(func, idx, job, q):
+    try:
+        q.put((idx, func(job)))
+    except BaseException as exc:  # noqa
+        import traceback
+        q.put((idx, {'_crashed': ''.join(traceback.format_exception(type(exc), exc, exc.__traceback__))[-4000:]}))
+
+
+def run_jobs(func, jobs, nproc, deadline_of, lost_result):
+    """One forked process per job, at most `nproc` at a time, each with a hard deadline (seconds).  A job whose process dies or
+    overruns its deadline (e.g. LAPACK spinning on non-finite input: no Python signal handler runs inside a C call) is killed and
+    replaced by `lost_result(job, reason)` -- inconclusive, never a verdict.  Results come back in job order."""
+    import queue
+    ctx = mp.get_context('fork')
+    q = ctx.Queue()
+    pending = list(enumerate(jobs))
+    running = {}
+    results = {}
+    dead_since = {}
+    while pending or running:
+        while pending and len(running) < nproc:
+            idx, job = pending.pop(0)
+            proc = ctx.Process(target=_child, args=(func, idx, job, q))
+            proc.daemon = True
+            proc.start()
+            running[idx] = (proc, time.time(), job)
+        try:
+            while True:
+                idx, res = q.get(timeout=0.05 if running else 0)
+                results[idx] = res
+                if idx in running:
+                    running.pop(idx)[0].join(timeout=5)
+        except queue.Empty:
+            pass
+        now = time.time()
+        for idx, (proc, t1, job) in list(running.items()):
+            if now - t1 > deadline_of(job):
+                proc.kill()
+                proc.join(timeout=5)
+                running.pop(idx)
+                results[idx] = lost_result(job, 'killed at its deadline of %.0f s' % deadline_of(job))
+            elif not proc.is_alive():
+                # exited without a result in the queue yet: give the queue a moment, then count it as lost
+                if now - dead_since.setdefault(idx, now) > 3.0:
+                    running.pop(idx)
+                    results[idx] = lost_result(job, 'worker process died (exit code %s)' % proc.exitcode)
+    out = []
+    for i, job in enumerate(jobs):
+        r = results[i]
+        if isinstance(r, dict) and '_crashed' in r:
+            r = lost_result(job, 'worker raised: ' + r['_crashed'])
+            r['harness_error'] = r['lost']
+        out.append(r)
+    return out
+
+
+def _lost_shard(job, reason):
+    prop_id, sub_name, shard, n, seed = job[:5]
+    return {'sub': sub_name, 'shard': shard, 'seed': seed, 'evaluations': 0, 'nt_hashes': [], 'all_hashes': 0, 'labels': {}, 'discarded': 0,
+            'excluded_known': {}, 'budget_skipped': n, 'samples': [], 'timeout_cases': [], 'failure': None, 'harness_error': None, 'wall_s': 0.0,
+            'lost': reason}
+
+
 def run_fuzz_stage(prop_id, subs, seed, args, pool):
     """atheris campaigns (vt/fuzz.py), `campaigns` per sub-check in parallel sub-processes; a failing campaign is handed to the
     normal Hypothesis runner for replay + shrinking.  -> (summary for the evidence, shard-like results of the shrink stage)"""
@@ -87,7 +150,8 @@ def run_fuzz_stage(prop_id, subs, seed, args, pool):
                     f = json.load(open(fail))
                     if f.get('kind') == 'violation':
                         # replay + shrink through the normal runner
-                        r = pool.apply(common.run_shard, ((prop_id, s.name, 1000 + k, 200, fseed, s.budget_thorough, 1, {'db': os.path.join(work, 'db')}),))
+                        r = run_jobs(common.run_shard, [(prop_id, s.name, 1000 + k, 200, fseed, s.budget_thorough, 1, {'db': os.path.join(work, 'db')})],
+                                     1, lambda j: s.budget_thorough + 600, _lost_shard)[0]
                         if not r['failure'] and not r['harness_error']:
                             # the stored input did not reproduce under the runner: report the fuzzer's own (unshrunk) case
                             r['failure'] = {'kind': 'violation', 'clause': f['clause'], 'message': f['message'], 'frame': f.get('frame', ''),
@@ -176,11 +240,14 @@ def main(argv=None):
     harness_errors = []
     known_lines = collections.OrderedDict()
 
-    with mp.get_context('fork').Pool(args.jobs) as pool:
+    case_limit = float(os.environ.get('VERIF_CASE_LIMIT', '300'))
+    pool = None
+    if True:
         # ---- replay tier: every saved case first -----------------------------------------------------
         saved = sorted(f for f in glob.glob(os.path.join(VERIF, 'replays', prop_id, '*.json')) if not os.path.basename(f).startswith('timeout-'))
         replayed = 0
-        for path, (status, info) in pool.imap_unordered(common._replay_worker, [(prop_id, p) for p in saved]):
+        for path, (status, info) in run_jobs(common._replay_worker, [(prop_id, p) for p in saved], args.jobs, lambda j: case_limit + 60,
+                                              lambda j, why: (j[1], ('harness', 'replay ' + why))):
             replayed += 1
             if status == 'violation':
                 violations.append((path, info[0], info[1]))
@@ -198,7 +265,7 @@ def main(argv=None):
             for shard in range(k):
                 jobs.append((prop_id, s.name, shard, n, common.derive_seed(seed, prop_id, s.name, shard), budget, k))
         # longest first would need timing knowledge; keep declaration order, imap_unordered balances
-        results = list(pool.imap_unordered(common.run_shard, jobs, chunksize=1))
+        results = run_jobs(common.run_shard, jobs, args.jobs, lambda j: j[5] + min(case_limit, j[5]) + 30, _lost_shard)
 
         # ---- coverage-guided tier (thorough only, when atheris can be imported) -----------------------
         fuzz_info = None
@@ -214,6 +281,7 @@ def main(argv=None):
     evaluations = 0
     discarded = 0
     budget_skipped = 0
+    lost_shards = []
     timeout_cases = []
     excluded = collections.Counter()
     for r in results:
@@ -230,6 +298,8 @@ def main(argv=None):
         evaluations += r['evaluations']
         discarded += r['discarded']
         budget_skipped += r['budget_skipped']
+        if r.get('lost'):
+            lost_shards.append('%s shard %d: %s' % (r['sub'], r['shard'], r['lost'][:300]))
         nt_all.update((r['sub'], h) for h in r['nt_hashes'])
         for l, c in r['labels'].items():
             labels[r['sub'] + ':' + l] += c
@@ -300,6 +370,7 @@ def main(argv=None):
                 'discarded_by_assume': discarded,
                 'budget_skipped': budget_skipped,
                 'case_timeouts': timeout_cases[:4],
+                'lost_shards': lost_shards,
                 'coverage_guided': fuzz_info,
                 'excluded_known': dict(excluded),
                 'replays_rerun': replayed,
@@ -325,6 +396,8 @@ def main(argv=None):
 
     print('%s tier=%s seed=%d: %d evaluations, %d distinct non-trivial, %d discarded, %d budget-skipped, %d replays, %.1fs'
           % (prop_id, args.tier, seed, evaluations, len(nt_all), discarded, budget_skipped, replayed, wall))
+    for l in lost_shards:
+        print('  INCONCLUSIVE ' + l)
     if fuzz_info and fuzz_info.get('available'):
         print('  coverage-guided: %d campaigns, %d executions, %d evaluated cases, %d corpus units, %d inconclusive, %.1fs'
               % (fuzz_info['campaigns'], fuzz_info['executions'], fuzz_info['evaluations'], fuzz_info['corpus_units'], fuzz_info['inconclusive'],
